@@ -30,6 +30,13 @@ type aEvent struct {
 	Idx int    `json:"idx"`
 	E   [2]any `json:"e"`
 	Ph  aHash  `json:"ph"`
+	Sh  int    `json:"sh"` // 1: on the wire the leading byte of the value sits at the end of the parent hash
+}
+type aPtm struct {
+	C  string `json:"c"`
+	G  int    `json:"g"`
+	H  int    `json:"h"`
+	Ok bool   `json:"ok"`
 }
 type aAcc struct {
 	Nu   [2]any `json:"nu"`
@@ -63,6 +70,7 @@ type aCase struct {
 	ElAuth   bool           `json:"elauth"`
 	ElVerify bool           `json:"elverify"`
 	Prep     []aPrep        `json:"prep"`
+	Ptm      []aPtm         `json:"ptm"`
 }
 
 // ---- concretisation
@@ -79,6 +87,10 @@ type authWorld struct {
 func (aw *authWorld) val(v [2]any) *big.Int {
 	c := v[0].(string)
 	i := int(v[1].(float64))
+	if i >= 100 { // the value without its leading byte
+		full := aw.val([2]any{c, float64(i - 100)}).Go().Bytes()
+		return big.Convert(new(gobig.Int).SetBytes(full[1:]))
+	}
 	switch c {
 	case "one":
 		return big.NewInt(1)
@@ -155,7 +167,13 @@ func (aw *authWorld) eventBytes(ev aEvent) []byte {
 }
 
 func (aw *authWorld) event(ev aEvent) *revocation.Event {
-	return &revocation.Event{Index: uint64(ev.Idx), E: aw.val(ev.E), ParentHash: aw.hash(ev.Ph)}
+	e, ph := aw.val(ev.E), aw.hash(ev.Ph)
+	if ev.Sh == 1 {
+		b := e.Go().Bytes()
+		ph = append(append(revocation.Hash{}, ph...), b[0])
+		e = big.Convert(new(gobig.Int).SetBytes(b[1:]))
+	}
+	return &revocation.Event{Index: uint64(ev.Idx), E: e, ParentHash: ph}
 }
 
 func (aw *authWorld) acc(a aAcc) *revocation.Accumulator {
@@ -353,9 +371,65 @@ func runAuthCase(aw *authWorld, wA *world, witE *big.Int, L int, c aCase, res *h
 			continue
 		}
 		res.Count(fmt.Sprintf("verify:%s:code=%v:spec=%v:auth=%v", v.name, err == nil, c.Verify, c.Auth))
+		if err != nil { // a rejected message stays rejected when the same object is verified again
+			var err2 error
+			hx.Try(func() { _, err2 = v.u.Verify(pk) })
+			if err2 == nil {
+				err = nil
+				res.Count("verify-accepts-on-retry")
+			}
+		}
 		if err == nil && !c.Auth {
 			res.Violation("unauthentic-update-verified", "Update.Verify accepted an update that is not a genuine signed chain segment ("+v.name+")",
 				hx.M{"case": c, "variant": v.name})
+		}
+		// 1b. Update.Prepend of GENUINE event lists to this (possibly tampered) update, once the receiver holds its accumulator
+		if v.u.SignedAccumulator.Accumulator != nil && len(v.u.Events) > 0 {
+			chain := aw.chains[c.Msg.Sacc.Payload.Nu[0].(string)]
+			accIdx := c.Msg.Sacc.Payload.Idx
+			for _, pt := range c.Ptm {
+				src := aw.chains[pt.C]
+				for _, mode := range []string{"memory", "json", "cbor+product"} {
+					var el *revocation.EventList
+					switch mode {
+					case "memory":
+						el = src.eventlist(pt.G, pt.H, false)
+					case "json":
+						b, _ := json.Marshal(src.eventlist(pt.G, pt.H, false))
+						el = &revocation.EventList{}
+						if json.Unmarshal(b, el) != nil {
+							continue
+						}
+					default:
+						el = src.eventlist(pt.G, pt.H, true)
+					}
+					tgt := &revocation.Update{SignedAccumulator: v.u.SignedAccumulator, Events: append([]*revocation.Event{}, v.u.Events...)}
+					before := append([]*revocation.Event{}, tgt.Events...)
+					var perr error
+					panicked, msg := hx.Try(func() { perr = tgt.Prepend(el) })
+					if panicked {
+						res.Violation("prepend-panic", "Update.Prepend panicked: "+msg, hx.M{"case": c, "variant": v.name, "list": pt, "mode": mode})
+						continue
+					}
+					res.Count(fmt.Sprintf("prepend-to-msg:code=%v:spec=%v", perr == nil, pt.Ok))
+					if perr != nil {
+						if !sameEvents(tgt.Events, before) {
+							res.Violation("rejected-prepend-changed-update", fmt.Sprintf("Update.Prepend returned %v but changed the update", perr),
+								hx.M{"case": c, "variant": v.name, "list": pt, "mode": mode})
+						}
+						continue
+					}
+					genuine := len(tgt.Events) > 0 && int(tgt.Events[len(tgt.Events)-1].Index) == accIdx && accIdx < len(chain.events)
+					if genuine {
+						g := int(tgt.Events[0].Index)
+						genuine = g >= 0 && g <= accIdx && sameEvents(tgt.Events, chain.events[g:accIdx+1])
+					}
+					if !genuine {
+						res.Violation("unauthentic-prepend-accepted", "Update.Prepend of a genuine list succeeded on an update whose own events are not a genuine chain segment",
+							hx.M{"case": c, "variant": v.name, "list": pt, "mode": mode})
+					}
+				}
+			}
 		}
 		// 2. Witness.Update for genuine witnesses of chain A at every index
 		for o := 0; o <= L; o++ {
@@ -419,6 +493,14 @@ func runAuthCase(aw *authWorld, wA *world, witE *big.Int, L int, c aCase, res *h
 				continue
 			}
 			res.Count(fmt.Sprintf("elverify:code=%v:spec=%v:auth=%v", err == nil, c.ElVerify, c.ElAuth))
+			if err != nil { // second call on the same list object (exercises the verified/validationErr memo)
+				var err2 error
+				hx.Try(func() { err2 = el.Verify(acc) })
+				if err2 == nil {
+					err = nil
+					res.Count("elverify-accepts-on-retry")
+				}
+			}
 			if err == nil && !c.ElAuth {
 				res.Violation("unauthentic-eventlist-verified", "EventList.Verify accepted events that are not a genuine chain segment ending in the accumulator's event hash ("+name+")",
 					hx.M{"case": c, "variant": name})
@@ -438,6 +520,15 @@ func runAuthCase(aw *authWorld, wA *world, witE *big.Int, L int, c aCase, res *h
 					if !sameEvents(tgt.Events, tgtEvents) {
 						res.Violation("rejected-prepend-changed-update", fmt.Sprintf("Update.Prepend returned %v but changed the update", perr),
 							hx.M{"case": c, "variant": name, "target": p})
+					} else if p.F2 >= 1 {
+						// behaviourally unchanged too: the update still brings a witness at index f2-1 to its accumulator
+						wit := wA.witness(witE, p.F2-1, 0, true)
+						var uerr error
+						hx.Try(func() { uerr = wit.Update(pk, tgt) })
+						if uerr != nil || !wA.valid(wit) || int(wit.SignedAccumulator.Accumulator.Index) != p.A2 {
+							res.Violation("rejected-prepend-changed-update", fmt.Sprintf("after a rejected Prepend (%v) the genuine update no longer updates a witness (err=%v)", perr, uerr),
+								hx.M{"case": c, "variant": name, "target": p})
+						}
 					}
 					continue
 				}
